@@ -82,6 +82,11 @@ func goMeta(name string, hdr uint32, seq uint32) (line string, p sms.PDU, resp s
 		return "not-a-pdu", nil, nil
 	}
 	r := record{cmdFieldOf(pkgOfName(name)): value{kind: kNum, num: uint64(hdr)}}
+	if pkgOfName(name) == "sgip12" {
+		// the other two words of the 12-octet sequence number: a node id and a time that is not "now"
+		r["Header.Sequence.0"] = value{kind: kNum, num: uint64(3000000000 + seq%99999)}
+		r["Header.Sequence.1"] = value{kind: kNum, num: uint64(101000000 + seq%1130235959)}
+	}
 	pd = build(name, r).(sms.PDU)
 	pd.SetSequenceID(seq)
 	cmd := pd.GetCommand().ToUint32()
@@ -123,7 +128,7 @@ func goDispatch(pkg string, cmd uint32, res *Result, op string) string {
 }
 
 func runC10(res *Result, d *Driver, g *Rng, tier string) {
-	res.Rule = "every PDU type x every header id it may carry (three SMPP bind flavours) x sequence numbers at 0,1,2^31-1,2^31,2^32-1, every value that is a command id of some protocol, header sizes, and random: GetCommand vs encoded header, GenEmptyResponse type/command/sequence (and that an earlier response keeps its sequence after later ones are generated), SetSequenceID vs getter and header offset, dispatcher on the encoded image; dispatchers on every defined id and random ids; non-trivial = distinct (type, header id, sequence) or (dispatcher, id)"
+	res.Rule = "every PDU type x every header id it may carry (three SMPP bind flavours) x sequence numbers at 0,1,2^31-1,2^31,2^32-1, every value that is a command id of some protocol, header sizes, and random: GetCommand vs encoded header, GenEmptyResponse type/command/sequence, for SGIP all three words of the 12-octet sequence number (and that an earlier response keeps its sequence after later ones are generated), SetSequenceID vs getter and header offset, dispatcher on the encoded image; dispatchers on every defined id and random ids; non-trivial = distinct (type, header id, sequence) or (dispatcher, id)"
 	nseq := 36
 	nrand := 2000
 	if tier == "thorough" {
@@ -218,6 +223,10 @@ func runC10(res *Result, d *Driver, g *Rng, tier string) {
 							}
 							if r2.GetCommand().ToUint32() != hid|0x80000000 {
 								res.Violate("C10.response-command:"+name, fmt.Sprintf("request command %#x, response command %#x", hid, r2.GetCommand().ToUint32()), rep)
+							}
+							// SGIP 1.2 §3.4: the sequence number is 12 octets (node id, time, serial) and the response's must equal the request's
+							if pkg == "sgip12" && rerr == nil && len(rimg) >= 20 && len(img) >= 20 && !bytes.Equal(rimg[8:20], img[8:20]) {
+								res.Violate("C10.response-seq-words:"+name, fmt.Sprintf("request sequence number %x, response %x: not the same 12 octets", img[8:20], rimg[8:20]), rep)
 							}
 							if rerr == nil && len(rimg) >= so+4 {
 								if binary.BigEndian.Uint32(rimg[4:]) != r2.GetCommand().ToUint32() {
